@@ -77,6 +77,32 @@ main (void)
           if (r) { printf ("ok "); show_rule (r); bus_match_rule_unref (r); }
           else { printf ("%s\n", dbus_error_has_name (&e, DBUS_ERROR_LIMITS_EXCEEDED) ? "toolong" : "invalid"); dbus_error_free (&e); }
         }
+      else if (!strcmp (cmd, "oomparse"))
+        {
+          /* as parse, but first with the 1st, 2nd, ... allocation failing: each such attempt must report NoMemory
+           * (or get through) and leave no allocation behind */
+          int k, leak = 0, wrong = 0;
+          BusMatchRule *r = NULL;
+          DBusError e = DBUS_ERROR_INIT;
+          for (k = 1; k < 600; k++)
+            {
+              int before = _dbus_get_malloc_blocks_outstanding (), fired;
+              _dbus_set_fail_alloc_counter (k - 1);
+              r = parse (a, &e);
+              fired = _dbus_get_fail_alloc_counter () > _DBUS_INT_MAX / 2;
+              _dbus_set_fail_alloc_counter (_DBUS_INT_MAX);
+              if (!fired) break;                       /* fewer than k allocations: this is the clean run */
+              if (r == NULL && !dbus_error_has_name (&e, DBUS_ERROR_NO_MEMORY)) wrong++;
+              if (r) bus_match_rule_unref (r);
+              r = NULL;
+              dbus_error_free (&e);
+              if (_dbus_get_malloc_blocks_outstanding () != before) leak++;
+            }
+          if (leak) printf ("LEAK-AFTER-FAILED-PARSE ");
+          if (wrong) printf ("WRONG-ERROR-UNDER-OOM ");
+          if (r) { printf ("ok "); show_rule (r); bus_match_rule_unref (r); }
+          else { printf ("%s\n", dbus_error_has_name (&e, DBUS_ERROR_LIMITS_EXCEEDED) ? "toolong" : "invalid"); dbus_error_free (&e); }
+        }
       else if (!strcmp (cmd, "equal") && n == 3)
         {
           DBusError e = DBUS_ERROR_INIT;
